@@ -24,7 +24,8 @@ def safe(s: str) -> bool:
 
 class C13(ProgramProperty):
     id = "C13"
-    theorems = ["C13_pm", "C13_priority", "C13_reverse_canonical", "C13_jsonld", "C13_upgrade_canonical", "C13_upgrade_recOK"]
+    theorems = ["C13_pm", "C13_priority", "C13_reverse_canonical", "C13_jsonld", "C13_upgrade_canonical", "C13_upgrade_recOK", "C13_upgrade_ok",
+                "C13_upgrade_accepted", "C13_upgrade_perm", "C13_reverse_complete"]
     lean_modules = ["CuriesVerif.Properties.C13"]
     rule = ("one case = one random prefix map (possibly non-bijective: several CURIE prefixes for one URI prefix), "
             "loaded through from_prefix_map, from_priority_prefix_map (grouped), from_reverse_prefix_map, "
